@@ -48,10 +48,10 @@ type System interface {
 }
 
 type Config struct {
-	MaxStates int           // 0 = unlimited
-	MaxDepth  int           // 0 = unlimited
-	Deadline  time.Time     // zero = none
-	Workers   int           // 0 = GOMAXPROCS
+	MaxStates int            // 0 = unlimited
+	MaxDepth  int            // 0 = unlimited
+	Deadline  time.Time      // zero = none
+	Workers   int            // 0 = GOMAXPROCS
 	Progress  func(d, n int) // optional
 	// Optional: called once for every newly admitted state (from worker goroutines, in parallel)
 	// with a path that reaches it. Used for observations that are too expensive to repeat on every
